@@ -6,13 +6,10 @@ GROUPS = [
          entry='h_poly_bbox', enforce='Polygon__bounding_box', kind='unbounded',
          bound='none for the vertex loop (loop contract, any number of vertices); polygons without repetition',
          unwind=None, unwindset={'Polygon__bounding_box.1': 1}, timeout=1800, tier='quick'),
-    dict(name='poly_bbox_rep', tu='src/polygon.cpp', spec_headers=['spec/ghost.h', 'spec/geom_spec.h', 'spec/extrema_in.h'],
-         models=['models/alloc_models.h', 'models/extrema_model.h'], harness='harness/c09.c', roots=['gdstk::Polygon::bounding_box'],
-         entry='h_poly_bbox_rep', enforce='Polygon__bounding_box/Polygon__bounding_box_rep', kind='unbounded', no_native=True,
-         bound='any number of vertices (loop contract); up to 4 extreme offsets handed out by the get_extrema model (loop unwound)',
-         unwind=6, timeout=2400, tier='thorough', solver='cadical'),
+    # poly_bbox_rep (polygon WITH repetition; contract Polygon__bounding_box_rep in contracts/bbox.ct, get_extrema modelled):
+    # needs IEEE monotonicity of + for 16 comparisons; undecided after 40 min with minisat and with cadical; NOT claimed.
 ]
 TRUSTED_BASE = ['clang 14 AST', 'tools/cxx2c.py lowering', 'cbmc 6.11.0 (dfcc + SAT)', 'side-car contracts']
 ASSUMPTIONS = ['coordinates are numbers (no NaN); IEEE-754 comparisons, bit-precise',
-               'poly_bbox_rep: Repetition::get_extrema is a C model handing out up to 4 arbitrary offsets (its lattice kinds are proved in C11); the claim is containment of the displaced vertices, not tightness', 'not covered: labels, references, cells, convex hulls (qhull), the GeometryInfo cache']
+               'not covered: repetitions on polygons/labels, references, cells, convex hulls (qhull), the GeometryInfo cache']
 EXPLANATION = ''
